@@ -1771,7 +1771,36 @@ impl Server {
             None // Unsubscribe from all
         };
         
+        let requested = channels.clone();
         let results = self.pubsub.unsubscribe(conn_id, channels)?;
+        
+        // A client that holds nothing to unsubscribe from still gets its confirmation: one per
+        // name given, or a single one with a nil name when none was given
+        if results.is_empty() {
+            let remaining = self.pubsub.get_subscription_info(conn_id)
+                .map(|info| info.channels.len() + info.patterns.len())
+                .unwrap_or(0);
+            let names: Vec<Option<Vec<u8>>> = match requested {
+                Some(list) => list.into_iter().map(Some).collect(),
+                None => vec![None],
+            };
+            self.connections.with_connection(conn_id, |conn| -> Result<()> {
+                for name in names {
+                    let response = RespFrame::Array(Some(vec![
+                        RespFrame::from_string("unsubscribe"),
+                        match name {
+                            Some(n) => RespFrame::from_bytes(n),
+                            None => RespFrame::null_bulk(),
+                        },
+                        RespFrame::Integer(remaining as i64),
+                    ]));
+                    conn.send_frame(&response)?;
+                }
+                conn.flush()?;
+                Ok(())
+            });
+            return Ok(RespFrame::NoResponse);
+        }
         
         // Send each unsubscription confirmation atomically
         self.connections.with_connection(conn_id, |conn| -> Result<()> {
@@ -1841,7 +1870,36 @@ impl Server {
             None // Unsubscribe from all patterns
         };
         
+        let requested = patterns.clone();
         let results = self.pubsub.punsubscribe(conn_id, patterns)?;
+        
+        // A client that holds nothing to unsubscribe from still gets its confirmation: one per
+        // name given, or a single one with a nil name when none was given
+        if results.is_empty() {
+            let remaining = self.pubsub.get_subscription_info(conn_id)
+                .map(|info| info.channels.len() + info.patterns.len())
+                .unwrap_or(0);
+            let names: Vec<Option<Vec<u8>>> = match requested {
+                Some(list) => list.into_iter().map(Some).collect(),
+                None => vec![None],
+            };
+            self.connections.with_connection(conn_id, |conn| -> Result<()> {
+                for name in names {
+                    let response = RespFrame::Array(Some(vec![
+                        RespFrame::from_string("punsubscribe"),
+                        match name {
+                            Some(n) => RespFrame::from_bytes(n),
+                            None => RespFrame::null_bulk(),
+                        },
+                        RespFrame::Integer(remaining as i64),
+                    ]));
+                    conn.send_frame(&response)?;
+                }
+                conn.flush()?;
+                Ok(())
+            });
+            return Ok(RespFrame::NoResponse);
+        }
         
         // Send each unsubscription confirmation atomically
         self.connections.with_connection(conn_id, |conn| -> Result<()> {
